@@ -350,6 +350,134 @@ func mutateCode(r *rng, code string) (string, string) {
 	}
 }
 
+
+// numericAliases: every string OF THE SAME LENGTH as `code` that some lenient numeric reading would take for the same
+// value (a sign or blank in place of a leading zero, a decimal point, an exponent, base prefixes, digit separators) or
+// for a value that coincides with it in a narrower accumulator (2^8 … 2^33 added, or subtracted, while the length stays).
+// The property says "byte for byte": none of them may be accepted unless it is itself the code of a window counter.
+func numericAliases(code string) []string {
+	n := len(code)
+	if n == 0 {
+		return nil
+	}
+	var v uint64
+	for _, ch := range []byte(code) {
+		if ch < '0' || ch > '9' {
+			return nil
+		}
+		v = v*10 + uint64(ch-'0')
+	}
+	seen := map[string]bool{code: true}
+	var out []string
+	add := func(s string) {
+		if len(s) == n && !seen[s] {
+			seen[s] = true
+			out = append(out, s)
+		}
+	}
+	lz := 0
+	for lz < n-1 && code[lz] == '0' {
+		lz++
+	}
+	if code[0] == '0' {
+		for _, p := range []string{"+", "-", " ", "\t", "\n", "_", "."} {
+			add(p + code[1:])
+		}
+		add(code[1:] + ".")
+		add(code[1:] + " ")
+		add(code[1:] + "\n")
+		add(code[1:] + "\x00")
+		add(fmt.Sprintf("%*d", n, v))  // blanks for all leading zeros
+		add(fmt.Sprintf("%+0*d", n, v)) // sign, then zeros
+		add(fmt.Sprintf("%-*d", n, v))  // trailing blanks
+	}
+	if lz >= 2 {
+		for _, f := range []string{"0x%0*x", "0X%0*X", "0o%0*o", "0b%0*b"} {
+			add(fmt.Sprintf(f, n-2, v))
+		}
+		add(fmt.Sprintf("%0*o", n, v)) // what a base-0 reader takes a zero-led numeral for
+		if ds := fmt.Sprint(v); len(ds) >= 2 && len(ds)+1 <= n {
+			add(strings.Repeat("0", n-len(ds)-1) + ds[:1] + "_" + ds[1:])
+		}
+	}
+	// exponent spellings: 25550 = 2555e1
+	if v > 0 {
+		m, k := v, 0
+		for m%10 == 0 {
+			m /= 10
+			k++
+			e := fmt.Sprintf("%de%d", m, k)
+			if len(e) <= n {
+				add(strings.Repeat("0", n-len(e)) + e)
+			}
+		}
+	}
+	lim := pow10(n)
+	for _, sh := range []uint{8, 16, 24, 31, 32, 33} {
+		for k := uint64(1); k <= 3; k++ {
+			d := k << sh
+			if v+d < lim {
+				add(fmt.Sprintf("%0*d", n, v+d))
+			}
+			if v >= d {
+				add(fmt.Sprintf("%0*d", n, v-d))
+			}
+		}
+	}
+	return out
+}
+
+// aliasOps: for a few keys, counters whose code starts with one or more zeros are searched (1 in 10 / 1 in 100), and each
+// numeric alias of the code is submitted to the validator, at the counter itself and with the code inside a window
+func aliasOps(r *rng, totp bool) []string {
+	var out []string
+	for _, d := range []int{6, 8, 10, 7} {
+		for a := 0; a < 3; a++ {
+			key := genKey(r)
+			ks := hxs(spell(r, key))
+			found1, found2 := false, false
+			for c := uint64(r.intn(1000)); !(found1 && found2) && c < 1<<20; c++ {
+				code := refHOTP(key, c, d, a)
+				two := strings.HasPrefix(code, "00")
+				if code[0] != '0' || (two && found2) || (!two && found1) {
+					continue
+				}
+				if two {
+					found2 = true
+				} else {
+					found1 = true
+				}
+				for _, al := range numericAliases(code) {
+					s := pick(r, []uint64{0, 0, 1, 2})
+					at := c + uint64(r.intn(int(2*s+1))) - s
+					if at > 1<<62 {
+						at = c
+					}
+					if totp {
+						per := pick(r, []uint64{30, 30, 60, 1})
+						out = append(out, fmt.Sprintf("vtotp %s %s %s %s", ks, hxs(al), timeFields(r, int64(at*per)+int64(r.intn(int(per)))), paramStr(d, per, s, a)))
+					} else {
+						out = append(out, fmt.Sprintf("vhotp %s %s %d %s", ks, hxs(al), at, paramStr(d, 0, s, a)))
+					}
+				}
+			}
+			// ten digits: the value itself is shifted (no leading zero needed)
+			if d == 10 {
+				c := genCounter(r) >> 2
+				code := refHOTP(key, c, d, a)
+				for _, al := range numericAliases(code) {
+					if totp {
+						out = append(out, fmt.Sprintf("vtotp %s %s %s %s", ks, hxs(al), timeFields(r, int64(c>>8)*30), paramStr(d, 30, 1, a)))
+					} else {
+						out = append(out, fmt.Sprintf("vhotp %s %s %d %s", ks, hxs(al), c, paramStr(d, 0, 1, a)))
+					}
+				}
+			}
+		}
+	}
+	return out
+}
+
 var skews = []uint64{0, 0, 1, 1, 2, 2, 3, 5, 9, 10, 10}
 var refusedSkews = []uint64{11, 12, 1000, 1 << 32, 1<<63 - 1, 1 << 63, 1<<63 + 1, 1<<64 - 2, 1<<64 - 1}
 
@@ -394,6 +522,7 @@ func genC03(r *rng, n int, hostile bool) []string {
 	var out []string
 	out = append(out, rareOps(r)...)
 	out = append(out, windowGrid(r, false)...)
+	out = append(out, aliasOps(r, false)...)
 	for i := 0; i < n; i++ {
 		key := genKey(r)
 		d, a := genDigits(r, hostile), genAlgo(r, hostile)
@@ -469,6 +598,7 @@ func genC04(r *rng, n int, hostile bool) []string {
 	var out []string
 	out = append(out, windowGrid(r, true)...)
 	out = append(out, steppedClock(r, true)...)
+	out = append(out, aliasOps(r, true)...)
 	for i := 0; i < n; i++ {
 		key := genKey(r)
 		d, a := genDigits(r, hostile), genAlgo(r, hostile)
@@ -954,6 +1084,12 @@ func genC06(r *rng, n int, hostile bool) []string {
 				code = c2
 			}
 		} else {
+			if al := numericAliases(code); len(al) > 0 && (code[0] == '0' || r.intn(6) == 0) {
+				ks := hxs(spell(r, key))
+				for _, v := range al {
+					out = append(out, fmt.Sprintf("vocra %s %s %s %s", ks, hxs(v), su, in))
+				}
+			}
 			code, _ = mutateCode(r, code)
 		}
 		out = append(out, fmt.Sprintf("vocra %s %s %s %s", hxs(spell(r, key)), hxs(code), su, in))
@@ -1032,6 +1168,11 @@ func rareOps(r *rng) []string {
 				out = append(out, fmt.Sprintf("vhotp %s %s %d %s", hxs(rfcKeyB32), hxs(v), c+uint64(r.intn(3))-1, paramStr(d, 0, 1, a)))
 			}
 			out = append(out, fmt.Sprintf("gtotp %s %s %s", hxs(rfcKeyB32), timeFields(r, int64(c*30+uint64(r.intn(30)))), paramStr(d, 30, 0, a)))
+			if d == 6 || d == 10 {
+				for _, v := range numericAliases(code) {
+					out = append(out, fmt.Sprintf("vtotp %s %s %s %s", hxs(rfcKeyB32), hxs(v), timeFields(r, int64(c*30+uint64(r.intn(30)))), paramStr(d, 30, 0, a)))
+				}
+			}
 		}
 	}
 	return out
